@@ -33,10 +33,14 @@ def graph_paths(prog: Program):
 
 def child_of(p):
     """The loop variable holding the member annotation: second component of an element of _level(...)."""
+    name = None
+    cur = None
     for e in p.events:
         if e[0] == "assign" and e[2][0] == "unpack" and e[2][2] == 1 and e[2][1][0] == "elem" and T.is_call_to(e[2][1][1], f"{MOD}._level"):
-            return e[2]
-    return None
+            name, cur = e[1], e[2]
+        elif e[0] == "assign" and name is not None and e[1] == name:
+            cur = e[2]  # the member was normalised in place (e.g. a reference evaluated)
+    return cur
 
 
 def _is_typenode(tm) -> bool:
@@ -268,6 +272,26 @@ def r09_3(prog: Program, rep: Report):
     rep.check(ok, "R09.3", g.qualname, g.loc, "members are taken from the unwrapped parent", "get_type_graph does not take the members of the unwrapped parent", detail="unwrapped-parent")
 
 
+def r09_8(prog: Program, rep: Report):
+    """String annotations taken from a constructor signature arrive in the walk as ForwardRef objects.  They are ordinary
+    members, not cycle cuts: unless the walk evaluates them, they become un-flagged reference nodes and the class they name
+    (and its members) never gets nodes of its own."""
+    hs = prog.functions.get(f"{C.INSP}._hints_from_signature")
+    makes_refs = hs is not None and any(T.contains(tm, lambda x: T.is_call_to(x, "typelib.py.refs.forwardref")) for p in P.paths_of(prog, hs) for tm in p.all_terms())
+    f, ps = graph_paths(prog)
+    evaluates = False
+    for p in ps:
+        child = child_of(p)
+        for e in p.events:
+            if e[0] == "assign" and T.is_call_to(e[2], "typelib.py.refs.evaluate") and e[2][2] and (child is None or e[2][2][0] == child or e[2][2][0][0] == "unpack"):
+                if any(pol and (T.is_call_to(g, "builtins.isinstance") and T.refname(g[2][1]) == "typing.ForwardRef" or T.is_call_to(g, f"{C.INSP}.isforwardref")) for g, pol in p.guards()):
+                    evaluates = True
+    if not makes_refs:
+        rep.held("R09.8", f.qualname, f.loc, "signature hints are never handed over as references", nontrivial=False)
+    else:
+        rep.check(evaluates, "R09.8", f.qualname, f.loc, "a member that arrives as a ForwardRef is evaluated before it becomes a node", "members that arrive as ForwardRef objects (string annotations of an __init__ signature, `from __future__ import annotations`) become ordinary nodes with cyclic=False: a reference node that is no cycle cut, and no node at all for the class it names or for that class's members", detail="reference-members")
+
+
 def r09_4(prog: Program, rep: Report):
     f = prog.function(f"{MOD}.static_order")
     t = ("param", f.params[0])
@@ -302,6 +326,8 @@ def run(prog: Program, rep: Report, tier: str):
     rep.rule("R09.1", "every non-skipped child contributes a predecessor; parents always added", floor=3)
     rep.rule("R09.2", "forward-ref node ⇔ cyclic flag ⇔ revisit; revisit test agrees with what is recorded", floor=3)
     rep.rule("R09.3", "_level = generic arguments ∪ type hints of the unwrapped parent", floor=3)
+    rep.rule("R09.8", "members that arrive as references are evaluated, not emitted as un-flagged reference nodes", floor=1)
+    r09_8(prog, rep)
     rep.rule("R09.4", "reference inputs delegate to the memoised self; plain inputs = [*itertypes(t)]", floor=4)
     rep.rule("R09.7", "references are named by qualified name and own module (refs.forwardref rules, shared with R11.7)", floor=5)
     rep.rule("R09.6", "termination: revisits of every type with members are cut (shared with R07.6)", floor=1)
